@@ -196,6 +196,14 @@ def update_for_language(stmts, lang):
             if specific in item:
                 # XXX - maybe make sure clause does not already exist.
                 item[clause] = item[specific]
+            else:
+                # Remove the entry installed for the other language
+                # when a previous library was processed.
+                for other in ["c", "cxx"]:
+                    previous = other + "_" + clause
+                    if (other != lang and previous in item and
+                        item.get(clause) is item[previous]):
+                        del item[clause]
 
 
 def compute_stmt_permutations(out, parts):
